@@ -27,6 +27,12 @@ use cameleon::{
     StreamResult,
 };
 use camharness::*;
+use cameleon::u3v::StreamHandle;
+use cameleon_device::u3v::verif::{VerifPoll, VerifUsb};
+use cameleon_device::u3v::{BusSpeed, ControlIfaceInfo, Device, DeviceInfo, LibUsbError, ReceiveIfaceInfo};
+use std::sync::atomic::{AtomicBool, AtomicU64, Ordering};
+use std::sync::Arc;
+use std::time::{Duration, Instant};
 
 // ---------------------------------------------------------------------------------------
 // fake device
@@ -119,6 +125,14 @@ struct World {
     /// what `is_loop_running` answers
     flag: bool,
     stop_fail_kills: bool,
+    /// behave like `u3v::StreamHandle`
+    u3v: bool,
+    /// bootstrap register image (only when the REAL stream handle is driven)
+    boot: Option<Vec<u8>>,
+    /// a call on the real handle did not return within the patience of the harness
+    blocked: bool,
+    /// loop deaths that really killed a loop (environment events)
+    deaths: u32,
     xml: String,
     senders: Vec<PayloadSender>,
     /// ids of the tokens the loop pushed through the sender it was given (until the channel was full)
@@ -169,6 +183,13 @@ impl World {
         self.trace.push((sub, out));
         out
     }
+    /// A sub-operation whose outcome is decided by the handle state, not by the fault plan
+    /// (it still takes one position of the plan).
+    fn step_forced(&mut self, sub: Sub, out: Out) -> Out {
+        self.counter += 1;
+        self.trace.push((sub, out));
+        out
+    }
 }
 
 const CTRL_KINDS: [&str; 6] = ["Io", "Timeout", "Disconnected", "Busy", "InvalidDevice", "BufferTooSmall"];
@@ -211,10 +232,121 @@ fn io_fault() -> std::io::Error {
     std::io::Error::new(std::io::ErrorKind::Other, "injected fault")
 }
 
+// ---------------------------------------------------------------------------------------
+// the REAL `u3v::StreamHandle` (with its loop thread) on a null USB endpoint, wrapped so that its
+// calls are recorded like the fake's: ties the model's `HandleKind.u3v` to stream_handle.rs itself
+
+/// Endpoint on which nothing ever arrives: every transfer completes with a timeout after 1 ms.
+struct NullUsb {
+    next: AtomicU64,
+}
+
+impl VerifUsb for NullUsb {
+    fn claim_interface(&self, _iface: u8) -> Result<(), LibUsbError> {
+        Ok(())
+    }
+    fn release_interface(&self, _iface: u8) -> Result<(), LibUsbError> {
+        Ok(())
+    }
+    fn read_bulk(&self, _ep: u8, _buf: &mut [u8], _t: Duration) -> Result<usize, LibUsbError> {
+        Err(LibUsbError::Timeout)
+    }
+    fn write_bulk(&self, _ep: u8, buf: &[u8], _t: Duration) -> Result<usize, LibUsbError> {
+        Ok(buf.len())
+    }
+    fn clear_halt(&self, _ep: u8) -> Result<(), LibUsbError> {
+        Ok(())
+    }
+    fn write_control(&self, _rt: u8, _r: u8, _v: u16, _i: u16, _buf: &[u8], _t: Duration) -> Result<usize, LibUsbError> {
+        Ok(0)
+    }
+    fn submit_bulk(&self, _ep: u8, _len: usize) -> Result<u64, LibUsbError> {
+        Ok(self.next.fetch_add(1, Ordering::SeqCst))
+    }
+    fn poll_bulk(&self, _id: u64, _t: Duration) -> VerifPoll {
+        std::thread::sleep(Duration::from_millis(1));
+        VerifPoll::Completed(Err(LibUsbError::Timeout))
+    }
+    fn cancel_bulk(&self, _id: u64) {}
+}
+
+/// set by the `die` event: the loop thread panics at its next `loop_top` yield point
+static KILL_LOOP: AtomicBool = AtomicBool::new(false);
+/// a real-handle session blocked: later sessions of the same shape are not attempted (5 s each)
+static BLOCKED_ONCE: AtomicBool = AtomicBool::new(false);
+
+fn install_kill_hook() {
+    cameleon::u3v::verif::set_yield_hook(Some(Box::new(|name| {
+        if name == "loop_top" && KILL_LOOP.swap(false, Ordering::SeqCst) {
+            panic!("c16: injected loop death");
+        }
+    })));
+}
+
+const SBRM: usize = 0x1_0000;
+const SIRM: usize = 0x2_0000;
+
+/// bootstrap register image `StreamParams::from_control` reads (as in the C12 harness)
+fn bootstrap_image() -> Vec<u8> {
+    let mut mem = vec![0u8; SIRM + 0x100];
+    let mut put = |a: usize, v: &[u8]| mem[a..a + v.len()].copy_from_slice(v);
+    put(0x01C4, &0u64.to_le_bytes());
+    put(0x01CC, &5u32.to_le_bytes());
+    put(0x01D8, &(SBRM as u64).to_le_bytes());
+    put(SBRM + 0x04, &1u64.to_le_bytes());
+    put(SBRM + 0x20, &(SIRM as u64).to_le_bytes());
+    put(SIRM + 0x18, &64u32.to_le_bytes());
+    put(SIRM + 0x1C, &64u32.to_le_bytes());
+    put(SIRM + 0x20, &1u32.to_le_bytes());
+    put(SIRM + 0x24, &0u32.to_le_bytes());
+    put(SIRM + 0x28, &0u32.to_le_bytes());
+    put(SIRM + 0x2C, &64u32.to_le_bytes());
+    mem
+}
+
+fn real_stream_handle() -> (Device, StreamHandle) {
+    let usb = Arc::new(NullUsb { next: AtomicU64::new(1) });
+    let dev = Device::verif_new(
+        usb,
+        ControlIfaceInfo { iface_number: 0, bulk_in_ep: 0x81, bulk_out_ep: 0x01 },
+        None,
+        Some(ReceiveIfaceInfo { iface_number: 2, bulk_in_ep: 0x83 }),
+        DeviceInfo {
+            gencp_version: semver::Version::new(1, 0, 0),
+            u3v_version: semver::Version::new(1, 0, 0),
+            guid: "guid".into(),
+            vendor_name: "v".into(),
+            model_name: "m".into(),
+            family_name: None,
+            device_version: "1".into(),
+            manufacturer_info: "i".into(),
+            serial_number: "s".into(),
+            user_defined_name: None,
+            supported_speed: BusSpeed::SuperSpeed,
+        },
+    );
+    let strm = StreamHandle::verif_new(&dev).expect("stream handle").expect("stream iface");
+    (dev, strm)
+}
+
+/// live loop threads of a real handle: every `StreamingLoop` holds a clone of `inner`
+fn real_loops(h: &StreamHandle) -> u32 {
+    (Arc::strong_count(&h.inner) - 1) as u32
+}
+
+/// wait until the number of live loop threads is `want` (a stopped loop needs a moment to leave)
+fn settle(h: &StreamHandle, want: u32) {
+    let t0 = Instant::now();
+    while real_loops(h) != want && t0.elapsed() < Duration::from_secs(3) {
+        std::thread::sleep(Duration::from_millis(1));
+    }
+}
+
 #[derive(Clone)]
 struct FakeCtrl(Rc<RefCell<World>>);
-#[derive(Clone)]
-struct FakeStrm(Rc<RefCell<World>>);
+/// The stream handle given to the camera: the recording fake, or (second field) a recording
+/// wrapper around the REAL `u3v::StreamHandle`.
+struct FakeStrm(Rc<RefCell<World>>, Option<StreamHandle>);
 
 impl DeviceControl for FakeCtrl {
     fn open(&mut self) -> ControlResult<()> {
@@ -248,6 +380,18 @@ impl DeviceControl for FakeCtrl {
             }
             buf.copy_from_slice(&PROBE_MAGIC.to_le_bytes());
             return Ok(());
+        }
+        if let Some(img) = &w.boot {
+            let a = address as usize;
+            if !(0x100..0x114).contains(&a) && !(0x200..0x204).contains(&a) && a + buf.len() <= img.len() {
+                // bootstrap registers read by StreamParams::from_control inside the real handle's
+                // start_streaming_loop: part of the loop-start sub-operation
+                if !w.ctrl_open {
+                    return Err(ControlError::NotOpened);
+                }
+                buf.copy_from_slice(&img[a..a + buf.len()]);
+                return Ok(());
+            }
         }
         let (sub, v) = match (address, buf.len()) {
             (ADDR_GAIN, 4) => (Sub::ParamRead, w.gain),
@@ -307,6 +451,46 @@ impl DeviceControl for FakeCtrl {
 
 impl PayloadStream for FakeStrm {
     fn open(&mut self) -> StreamResult<()> {
+        if let Some(h) = self.1.as_mut() {
+            let r = if h.is_loop_running() {
+                // `open` while the loop runs must return at once (F-C16-1: it used to wait forever
+                // for the receive channel lock the loop holds).  Run it on a helper thread and give
+                // up after 5 s; a blocked session is abandoned (the handle is leaked, not reused).
+                struct SendPtr(*mut StreamHandle);
+                unsafe impl Send for SendPtr {}
+                let ptr = SendPtr(h as *mut StreamHandle);
+                let (tx, rx) = std::sync::mpsc::channel();
+                std::thread::spawn(move || {
+                    let p = ptr;
+                    let r = unsafe { (*p.0).open() };
+                    let _ = tx.send(r);
+                });
+                match rx.recv_timeout(Duration::from_secs(5)) {
+                    Ok(r) => r,
+                    Err(_) => {
+                        let mut w = self.0.borrow_mut();
+                        w.blocked = true;
+                        w.step_forced(Sub::StrmOpen, Out::Fault);
+                        return Err(StreamError::Timeout);
+                    }
+                }
+            } else {
+                h.open()
+            };
+            let mut w = self.0.borrow_mut();
+            w.step_forced(Sub::StrmOpen, if r.is_ok() { Out::Ok } else { Out::Fault });
+            if r.is_ok() {
+                w.strm_open = true;
+            }
+            return r;
+        }
+        if self.0.borrow().u3v && self.0.borrow().flag {
+            // u3v::StreamHandle: Ok at once while the loop runs, the fault plan has no say
+            let mut w = self.0.borrow_mut();
+            w.step_forced(Sub::StrmOpen, Out::Ok);
+            w.strm_open = true;
+            return Ok(());
+        }
         let mut w = self.0.borrow_mut();
         let o = w.step(Sub::StrmOpen, false);
         if o == Out::Ok {
@@ -317,6 +501,17 @@ impl PayloadStream for FakeStrm {
         }
     }
     fn close(&mut self) -> StreamResult<()> {
+        if let Some(h) = self.1.as_mut() {
+            let r = h.close();
+            let mut w = self.0.borrow_mut();
+            w.step_forced(Sub::StrmClose, if r.is_ok() { Out::Ok } else { Out::Fault });
+            if r.is_ok() {
+                w.strm_open = false;
+            }
+            w.flag = h.is_loop_running();
+            w.loops = real_loops(h);
+            return r;
+        }
         let mut w = self.0.borrow_mut();
         let o = w.step(Sub::StrmClose, false);
         if o == Out::Ok {
@@ -327,6 +522,19 @@ impl PayloadStream for FakeStrm {
         }
     }
     fn start_streaming_loop(&mut self, sender: PayloadSender, ctrl: &mut dyn DeviceControl) -> StreamResult<()> {
+        if let Some(h) = self.1.as_mut() {
+            let r = h.start_streaming_loop(sender, ctrl);
+            let mut w = self.0.borrow_mut();
+            // the fallible part (stream parameters) succeeded unless an Io error came back
+            let o = match &r {
+                Ok(()) | Err(StreamError::InStreaming) => Out::Ok,
+                Err(_) => Out::Fault,
+            };
+            w.step_forced(Sub::LoopStart, o);
+            w.flag = h.is_loop_running();
+            w.loops = real_loops(h);
+            return r;
+        }
         // like the real handle: read the streaming parameters through the control object handed
         // in; it must be the camera's (opened) control handle of THIS device
         let before = self.0.borrow().probe_reads;
@@ -338,8 +546,13 @@ impl PayloadStream for FakeStrm {
             return Err(StreamError::Io(io_fault().into()));
         }
         let o = w.step(Sub::LoopStart, false);
+        if o == Out::Ok && w.u3v && w.flag {
+            // u3v::StreamHandle: `if self.is_loop_running() { return Err(InStreaming) }` after the
+            // parameters were read
+            return Err(StreamError::InStreaming);
+        }
         if o == Out::Ok {
-            // permissive on purpose: a second call WOULD create a second loop
+            // the recording fake is permissive on purpose: a second call WOULD create a second loop
             w.loops += 1;
             w.flag = true;
             // the loop's side of the payload channel: push tokens until the channel is full
@@ -368,7 +581,35 @@ impl PayloadStream for FakeStrm {
         }
     }
     fn stop_streaming_loop(&mut self) -> StreamResult<()> {
+        if let Some(h) = self.1.as_mut() {
+            let r = h.stop_streaming_loop();
+            if r.is_ok() {
+                settle(h, 0); // the loop received the cancellation: wait until the thread has left
+            }
+            let mut w = self.0.borrow_mut();
+            w.step_forced(Sub::LoopStop, if r.is_ok() { Out::Ok } else { Out::Fault });
+            w.flag = h.is_loop_running();
+            w.loops = real_loops(h);
+            w.chan = None;
+            return r;
+        }
         let mut w = self.0.borrow_mut();
+        if w.u3v {
+            // u3v::StreamHandle: without a sender nothing happens; otherwise the sender is TAKEN
+            // (flag cleared) and the cancellation is sent, which fails exactly when the loop thread
+            // is gone - the fault plan has no say
+            let dead = w.flag && w.loops == 0;
+            let o = w.step_forced(Sub::LoopStop, if dead { Out::Fault } else { Out::Ok });
+            if w.flag {
+                w.flag = false;
+                w.chan = None;
+                if o == Out::Ok {
+                    w.loops = w.loops.saturating_sub(1);
+                    w.senders.pop();
+                }
+            }
+            return if o == Out::Ok { Ok(()) } else { Err(strm_fault(w.fault_kind, true)) };
+        }
         let o = w.step(Sub::LoopStop, false);
         if o == Out::Ok {
             w.loops = w.loops.saturating_sub(1);
@@ -389,7 +630,10 @@ impl PayloadStream for FakeStrm {
         }
     }
     fn is_loop_running(&self) -> bool {
-        self.0.borrow().flag
+        match &self.1 {
+            Some(h) => h.is_loop_running(),
+            None => self.0.borrow().flag,
+        }
     }
 }
 
@@ -558,6 +802,8 @@ enum Op {
     Preload,
     /// state surgery: `camera.ctxt = None` through the public field
     Unload,
+    /// environment event: the receive loop thread dies on its own (u3v-like handle only)
+    Die,
 }
 
 impl Op {
@@ -572,6 +818,7 @@ impl Op {
             Op::Gate(v) => format!("gate{v}"),
             Op::Preload => "preload".into(),
             Op::Unload => "unload".into(),
+            Op::Die => "die".into(),
         }
     }
     fn from_name(s: &str) -> Op {
@@ -583,6 +830,7 @@ impl Op {
             "param" => Op::Param,
             "preload" => Op::Preload,
             "unload" => Op::Unload,
+            "die" => Op::Die,
             g if g.starts_with("gate") => Op::Gate(g[4..].parse().unwrap()),
             _ => Op::Start(s.trim_start_matches("start").parse().unwrap()),
         }
@@ -649,6 +897,8 @@ struct Snap {
     cache: [bool; 5],
     gate: u32,
     chan: Option<(Option<usize>, Option<usize>)>,
+    /// the real stream handle's loop owns the sender: the channel cannot be probed
+    hide_chan: bool,
 }
 
 impl Snap {
@@ -671,6 +921,7 @@ impl Snap {
             b(self.cache[4]),
             self.gate,
             match self.chan {
+                _ if self.hide_chan => "H?".to_string(),
                 None => "H-".to_string(),
                 Some((f, k)) => format!(
                     "H{}.{}",
@@ -707,8 +958,15 @@ fn snapshot(cam: &mut Cam, w: &Rc<RefCell<World>>) -> Snap {
         }
     }
     let flag = cam.strm.is_loop_running();
+    if let Some(h) = cam.strm.1.as_ref() {
+        let mut wm = w.borrow_mut();
+        wm.flag = flag;
+        wm.loops = real_loops(h);
+    }
+    let hide_chan = cam.strm.1.is_some();
     let w = w.borrow();
     Snap {
+        hide_chan,
         flag,
         loops: w.loops,
         enabled: w.enabled,
@@ -770,7 +1028,7 @@ struct CallOut {
 static ORDER: std::sync::OnceLock<String> = std::sync::OnceLock::new();
 
 fn discover_order(xml_text: &str) -> String {
-    let case = Case { xml: XmlVar::FULL, stop_fail_kills: false, faults: vec![], ops: vec![Op::Open, Op::Close], kind: 0 };
+    let case = Case { xml: XmlVar::FULL, stop_fail_kills: false, u3v: false, real: false, faults: vec![], ops: vec![Op::Open, Op::Close], kind: 0 };
     let outs = run_impl(&case, xml_text);
     let first = |seg: &[(Sub, Out)], c: Sub, s: Sub| match seg.first() {
         Some(e) if e.0 == s && seg.len() == 2 && seg[1].0 == c => 's',
@@ -784,6 +1042,10 @@ fn discover_order(xml_text: &str) -> String {
 struct Case {
     xml: XmlVar,
     stop_fail_kills: bool,
+    /// the stream handle behaves like `u3v::StreamHandle` (see the Lean model's `HandleKind.u3v`)
+    u3v: bool,
+    /// drive the REAL `u3v::StreamHandle` (implies the u3v model instance; no injected faults)
+    real: bool,
     faults: Vec<usize>,
     ops: Vec<Op>,
     /// variant of the injected errors (index into CTRL_KINDS / STRM_KINDS)
@@ -799,16 +1061,18 @@ impl Case {
         };
         let ops = self.ops.iter().map(|o| o.name()).collect::<Vec<_>>().join(" ");
         let order = ORDER.get().map(|s| s.as_str()).unwrap_or("cc");
-        format!("c16 run {} {} {} {} {} {}", self.xml.bits(), if self.stop_fail_kills { "kill" } else { "keep" }, self.kind, order, f, ops)
+        format!("c16 run {} {} {} {} {} {}", self.xml.bits(), if self.real { "u3vr" } else if self.u3v { "u3v" } else if self.stop_fail_kills { "kill" } else { "keep" }, self.kind, order, f, ops)
     }
     fn replay(&self) -> Value {
-        json!({"xml": self.xml.name(), "stop_fail_kills": self.stop_fail_kills, "faults": self.faults, "kind": self.kind,
+        json!({"xml": self.xml.name(), "stop_fail_kills": self.stop_fail_kills, "u3v": self.u3v, "real": self.real, "faults": self.faults, "kind": self.kind,
                "ops": self.ops.iter().map(|o| o.name()).collect::<Vec<_>>()})
     }
     fn from_replay(r: &Value) -> Case {
         Case {
             xml: XmlVar::from_name(r["xml"].as_str().unwrap()),
             stop_fail_kills: r["stop_fail_kills"].as_bool().unwrap(),
+            u3v: r["u3v"].as_bool().unwrap_or(false),
+            real: r["real"].as_bool().unwrap_or(false),
             faults: r["faults"].as_array().unwrap().iter().map(|v| v.as_u64().unwrap() as usize).collect(),
             ops: r["ops"].as_array().unwrap().iter().map(|v| Op::from_name(v.as_str().unwrap())).collect(),
             kind: r["kind"].as_u64().unwrap_or(0) as u8,
@@ -820,6 +1084,8 @@ fn run_impl(case: &Case, xml_text: &str) -> Vec<CallOut> {
     let world = Rc::new(RefCell::new(World {
         faults: case.faults.clone(),
         stop_fail_kills: case.stop_fail_kills,
+        u3v: case.u3v || case.real,
+        boot: if case.real { Some(bootstrap_image()) } else { None },
         xml: xml_text.to_string(),
         gain: 7,
         fault_kind: case.kind,
@@ -829,7 +1095,16 @@ fn run_impl(case: &Case, xml_text: &str) -> Vec<CallOut> {
     use cameleon::genapi::FromXml;
     let first_preload = case.ops.first() == Some(&Op::Preload);
     let ctxt0 = if first_preload { DefaultGenApiCtxt::from_xml(&xml_text).ok() } else { None };
-    let mut cam_opt: Option<Cam> = Some(Camera::new(FakeCtrl(world.clone()), FakeStrm(world.clone()), ctxt0, info));
+    let (_real_dev, real_handle) = if case.real {
+        install_kill_hook();
+        KILL_LOOP.store(false, Ordering::SeqCst);
+        let (d, h) = real_stream_handle();
+        (Some(d), Some(h))
+    } else {
+        (None, None)
+    };
+    let mut cam_opt: Option<Cam> =
+        Some(Camera::new(FakeCtrl(world.clone()), FakeStrm(world.clone(), real_handle), ctxt0, info));
     let mut outs = vec![];
     for (i, op) in case.ops.iter().enumerate() {
         let before = snapshot(cam_opt.as_mut().unwrap(), &world);
@@ -847,6 +1122,31 @@ fn run_impl(case: &Case, xml_text: &str) -> Vec<CallOut> {
             },
             Op::Unload => {
                 cam_opt.as_mut().unwrap().ctxt = None;
+                Ok(Ok(()))
+            }
+            Op::Die if case.real => {
+                let cam = cam_opt.as_mut().unwrap();
+                let h = cam.strm.1.as_ref().unwrap();
+                if real_loops(h) > 0 {
+                    // the loop thread panics at its next loop_top yield point
+                    KILL_LOOP.store(true, Ordering::SeqCst);
+                    settle(h, 0);
+                    KILL_LOOP.store(false, Ordering::SeqCst);
+                    let mut w = world.borrow_mut();
+                    w.deaths += 1;
+                    w.loops = real_loops(h);
+                    w.chan = None;
+                }
+                Ok(Ok(()))
+            }
+            Op::Die => {
+                let mut w = world.borrow_mut();
+                if w.u3v && w.loops > 0 {
+                    w.loops -= 1;
+                    w.deaths += 1;
+                    w.chan = None;
+                    w.senders.pop(); // the thread owned the sender: the caller's receiver sees a closed channel
+                }
                 Ok(Ok(()))
             }
             _ => {
@@ -872,7 +1172,7 @@ fn run_impl(case: &Case, xml_text: &str) -> Vec<CallOut> {
                         node.set_value(&mut ctxt, *v as i64)?;
                         Ok(())
                     }
-                    Op::Preload | Op::Unload => unreachable!(),
+                    Op::Preload | Op::Unload | Op::Die => unreachable!(),
                 })
             }
         };
@@ -881,6 +1181,15 @@ fn run_impl(case: &Case, xml_text: &str) -> Vec<CallOut> {
             Ok(Ok(())) => "ok".to_string(),
             Ok(Err(e)) => format!("err:{}", err_class(e)),
         };
+        if world.borrow().blocked {
+            // the helper thread still sits in the handle: abandon the session, leak the camera
+            let seg = world.borrow().trace[t0..].to_vec();
+            outs.push(CallOut { op: *op, res: "blocked".into(), seg, before: before.clone(), after: before });
+            std::mem::forget(cam_opt.take());
+            std::mem::forget(_real_dev);
+            BLOCKED_ONCE.store(true, Ordering::SeqCst);
+            return outs;
+        }
         let seg = world.borrow().trace[t0..].to_vec();
         let after = snapshot(cam_opt.as_mut().unwrap(), &world);
         outs.push(CallOut { op: *op, res, seg, before, after });
@@ -954,10 +1263,19 @@ fn non_protocol(k: Sub) -> bool {
 /// Returns (kind, description) of every property clause the run violates.
 fn oracle(case: &Case, outs: &[CallOut]) -> Vec<(&'static str, String)> {
     let mut bad: Vec<(&'static str, String)> = vec![];
+    // a loop thread died on its own earlier in this history (u3v-like handle only)
+    let mut died = false;
     for (i, o) in outs.iter().enumerate() {
         let seg = &o.seg;
         let at = format!("call #{i} {}", o.op.name());
-        if matches!(o.op, Op::Preload | Op::Unload) {
+        if o.op == Op::Die && o.after.loops < o.before.loops {
+            died = true;
+        }
+        if o.res == "blocked" {
+            bad.push(("open_while_streaming_blocks", format!("{at}: the call on the real u3v::StreamHandle did not return within 5 s (the loop thread holds the receive channel lock)")));
+            break;
+        }
+        if matches!(o.op, Op::Preload | Op::Unload | Op::Die) {
             if !seg.is_empty() {
                 bad.push(("fault_stops_call", format!("{at}: state surgery touched the device")));
             }
@@ -1004,7 +1322,7 @@ fn oracle(case: &Case, outs: &[CallOut]) -> Vec<(&'static str, String)> {
                 // the receiver handed to the caller is the peer of the sender handed to the loop,
                 // with payload capacity `cap` (and the documented give-back capacity 5)
                 if let Op::Start(cap) = o.op {
-                    if o.after.chan != Some((Some(cap), Some(5))) {
+                    if !case.real && o.after.chan != Some((Some(cap), Some(5))) {
                         bad.push(("payload_channel", format!("{at}: channel between the loop and the returned receiver is {:?}, expected capacity {cap} / give-back 5", o.after.chan)));
                     }
                 }
@@ -1061,8 +1379,13 @@ fn oracle(case: &Case, outs: &[CallOut]) -> Vec<(&'static str, String)> {
         if o.after.loops > 1 {
             bad.push(("no_second_loop", format!("{at}: {} live loops", o.after.loops)));
         }
-        if o.after.flag != (o.after.loops == 1) {
+        if !died && o.after.flag != (o.after.loops == 1) {
             bad.push(("flag_tracks_loop", format!("{at}: is_loop_running = {} but {} live loop(s)", o.after.flag, o.after.loops)));
+        }
+        // after a spontaneous loop death the handle may still report a loop (u3v_live_loop_is_reported:
+        // only the direction "a live loop is reported" survives)
+        if died && o.after.loops == 1 && !o.after.flag {
+            bad.push(("flag_tracks_loop", format!("{at}: a live loop is not reported by is_loop_running")));
         }
         // ---- a panicking call (start_streaming(0): documented) must not have touched the device
         if o.res == "panic" && !seg.is_empty() {
@@ -1126,9 +1449,11 @@ fn oracle(case: &Case, outs: &[CallOut]) -> Vec<(&'static str, String)> {
                 _ => {}
             }
         }
-        if case.stop_fail_kills {
+        if case.stop_fail_kills && !case.u3v {
             loops -= whole.iter().filter(|e| *e == &(Sub::LoopStop, Out::Fault)).count() as i64;
         }
+        // spontaneous loop deaths are not effects of the trace
+        loops -= outs.iter().filter(|o| o.op == Op::Die && o.after.loops < o.before.loops).count() as i64;
         let a = &last.after;
         if (a.enabled, a.lock, a.acquiring, a.ctrl_open, a.strm_open, a.loops as i64) != (en, lock, acq, co, so, loops) {
             bad.push(("trace_replay", format!("final state {} is not the replay of the trace", a.show())));
@@ -1256,7 +1581,7 @@ fn main() {
                 if g != GateVar::None && !ops.iter().any(|o| matches!(o, Op::Gate(_))) {
                     continue;
                 }
-                let case = Case { xml: XmlVar { gate: g, ..XmlVar::FULL }, stop_fail_kills: false, faults: vec![], ops: ops.clone(), kind: 0 };
+                let case = Case { xml: XmlVar { gate: g, ..XmlVar::FULL }, stop_fail_kills: false, u3v: false, real: false, faults: vec![], ops: ops.clone(), kind: 0 };
                 let xml = cx.xml_text(case.xml);
                 let outs = run_impl(&case, &xml);
                 println!("{} [{}]\n  {}", case.request(), case.xml.name(), answer(&outs));
@@ -1291,7 +1616,7 @@ fn main() {
     let mut seqs: Vec<Vec<Op>> = vec![];
     sequences(&base6, d_main, &mut |s| seqs.push(s.to_vec()));
     for s in &seqs {
-        let c = Case { xml: XmlVar::FULL, stop_fail_kills: false, faults: vec![], ops: s.clone(), kind: 0 };
+        let c = Case { xml: XmlVar::FULL, stop_fail_kills: false, u3v: false, real: false, faults: vec![], ops: s.clone(), kind: 0 };
         cx.with_faults(&c, false, "exhaustive-main");
     }
     cx.rep.extra.insert(
@@ -1307,14 +1632,14 @@ fn main() {
         if !s.contains(&Op::Start(0)) {
             continue;
         }
-        let c = Case { xml: XmlVar::FULL, stop_fail_kills: false, faults: vec![], ops: s.clone(), kind: 0 };
+        let c = Case { xml: XmlVar::FULL, stop_fail_kills: false, u3v: false, real: false, faults: vec![], ops: s.clone(), kind: 0 };
         cx.with_faults(&c, false, "exhaustive-cap0");
     }
     let d3 = if thorough { 5 } else { 4 };
     let mut seqs3: Vec<Vec<Op>> = vec![];
     sequences(&base5, d3, &mut |s| seqs3.push(s.to_vec()));
     for s in &seqs3 {
-        let c = Case { xml: XmlVar::FULL, stop_fail_kills: false, faults: vec![], ops: s.clone(), kind: 0 };
+        let c = Case { xml: XmlVar::FULL, stop_fail_kills: false, u3v: false, real: false, faults: vec![], ops: s.clone(), kind: 0 };
         cx.with_faults(&c, true, "exhaustive-fault-pairs");
     }
 
@@ -1326,7 +1651,7 @@ fn main() {
         if !s.iter().any(|o| matches!(o, Op::Stop | Op::Close)) {
             continue;
         }
-        let c = Case { xml: XmlVar::FULL, stop_fail_kills: true, faults: vec![], ops: s.clone(), kind: 0 };
+        let c = Case { xml: XmlVar::FULL, stop_fail_kills: true, u3v: false, real: false, faults: vec![], ops: s.clone(), kind: 0 };
         cx.with_faults(&c, false, "exhaustive-stopfail-kills");
     }
 
@@ -1346,7 +1671,7 @@ fn main() {
             if !s.contains(&Op::Load) {
                 continue;
             }
-            let c = Case { xml: *v, stop_fail_kills: false, faults: vec![], ops: s.clone(), kind: 0 };
+            let c = Case { xml: *v, stop_fail_kills: false, u3v: false, real: false, faults: vec![], ops: s.clone(), kind: 0 };
             cx.with_faults(&c, false, "exhaustive-defective-xml");
         }
     }
@@ -1365,7 +1690,7 @@ fn main() {
             if v != XmlVar::FULL && !s.contains(&Op::Preload) {
                 continue;
             }
-            let c = Case { xml: v, stop_fail_kills: false, faults: vec![], ops: s.clone(), kind: 0 };
+            let c = Case { xml: v, stop_fail_kills: false, u3v: false, real: false, faults: vec![], ops: s.clone(), kind: 0 };
             cx.with_faults(&c, false, "exhaustive-preload-unload");
         }
     }
@@ -1385,10 +1710,105 @@ fn main() {
             }
             let mut ops = vec![Op::Open, Op::Load];
             ops.extend_from_slice(s);
-            let c = Case { xml: XmlVar { gate: g, ..XmlVar::FULL }, stop_fail_kills: false, faults: vec![], ops, kind: 0 };
+            let c = Case { xml: XmlVar { gate: g, ..XmlVar::FULL }, stop_fail_kills: false, u3v: false, real: false, faults: vec![], ops, kind: 0 };
             cx.with_faults(&c, false, "exhaustive-gated-TLParamsLocked");
         }
     }
+
+    // (5e) the stream handle that behaves like u3v::StreamHandle (own InStreaming check, stop takes
+    //      the sender and fails exactly on a dead loop) with spontaneous loop deaths as events
+    let u3v_alpha = [Op::Open, Op::Load, Op::Start(1), Op::Stop, Op::Close, Op::Die];
+    let d9 = if thorough { 6 } else { 5 };
+    let mut seqs9: Vec<Vec<Op>> = vec![];
+    sequences(&u3v_alpha, d9, &mut |s| seqs9.push(s.to_vec()));
+    for s in &seqs9 {
+        let c = Case { xml: XmlVar::FULL, stop_fail_kills: false, u3v: true, real: false, faults: vec![], ops: s.clone(), kind: 0 };
+        cx.with_faults(&c, false, "exhaustive-u3v-handle");
+    }
+
+    // (5f) the REAL u3v::StreamHandle with its loop thread on a null endpoint, recorded by a wrapper:
+    //      ties the model's u3v handle instance to stream_handle.rs itself.  No fault injection
+    //      (the handle decides); a loop death (panic injected at the loop_top yield point) is
+    //      followed only by calls that do not touch the poisoned receive-channel mutex again.
+    let real_alpha = [Op::Open, Op::Load, Op::Start(1), Op::Stop, Op::Close];
+    let d10 = if thorough { 4 } else { 3 };
+    let mut real_seqs: Vec<Vec<Op>> = vec![];
+    sequences(&real_alpha, d10, &mut |s| {
+        let mut ops = vec![Op::Open, Op::Load];
+        ops.extend_from_slice(s);
+        real_seqs.push(ops);
+    });
+    for tail in [
+        vec![Op::Start(1), Op::Die, Op::Stop],
+        vec![Op::Start(1), Op::Die, Op::Start(1), Op::Stop],
+        vec![Op::Die, Op::Start(1), Op::Die, Op::Stop, Op::Stop],
+        vec![Op::Start(1), Op::Stop, Op::Start(2), Op::Die, Op::Param, Op::Stop],
+        vec![Op::Start(1), Op::Close, Op::Open, Op::Start(3), Op::Die, Op::Load, Op::Stop],
+    ] {
+        let mut ops = vec![Op::Open, Op::Load];
+        ops.extend(tail);
+        real_seqs.push(ops);
+    }
+    real_seqs.push(vec![Op::Load, Op::Start(1), Op::Open, Op::Start(1), Op::Load, Op::Start(1), Op::Start(1), Op::Close, Op::Close]);
+    // F-C16-1 (fixed in /repo): the loop thread holds the receive-channel mutex for its whole life, so
+    // `StreamHandle::open()` - i.e. `Camera::open()` - while a loop ran blocked forever.  The
+    // deterministic sessions below (the `load` gives the thread time to take the lock) come first;
+    // a blocked call is detected after 5 s (helper thread), a watchdog aborts a session that stalls
+    // otherwise.
+    let mut first: Vec<Vec<Op>> = vec![
+        vec![Op::Open, Op::Load, Op::Start(1), Op::Load, Op::Open],
+        vec![Op::Open, Op::Load, Op::Start(1), Op::Load, Op::Open, Op::Open],
+        vec![Op::Open, Op::Load, Op::Start(1), Op::Load, Op::Open, Op::Stop],
+        vec![Op::Open, Op::Load, Op::Start(1), Op::Load, Op::Open, Op::Stop, Op::Close],
+        vec![Op::Open, Op::Load, Op::Start(1), Op::Param, Op::Open, Op::Close, Op::Open, Op::Start(2), Op::Load, Op::Open, Op::Stop],
+    ];
+    first.append(&mut real_seqs);
+    let real_seqs = first;
+    let progress = Arc::new(AtomicU64::new(0));
+    {
+        let progress = progress.clone();
+        std::thread::spawn(move || {
+            let mut last = (0u64, Instant::now());
+            loop {
+                std::thread::sleep(Duration::from_millis(500));
+                let p = progress.load(Ordering::SeqCst);
+                if p == u64::MAX {
+                    return;
+                }
+                if p != last.0 {
+                    last = (p, Instant::now());
+                } else if last.1.elapsed() > Duration::from_secs(30) {
+                    eprintln!("c16: a session on the real u3v::StreamHandle stalled for 30 s (session #{p}); aborting");
+                    std::process::exit(3);
+                }
+            }
+        });
+    }
+    for ops in &real_seqs {
+        progress.fetch_add(1, Ordering::SeqCst);
+        if BLOCKED_ONCE.load(Ordering::SeqCst) {
+            // one blocked open is enough: do not spend 5 s on every further open-while-streaming
+            let mut running = false;
+            let mut risky = false;
+            for o in ops {
+                match o {
+                    Op::Start(_) => running = true,
+                    Op::Stop | Op::Close | Op::Die => running = false,
+                    Op::Open if running => risky = true,
+                    _ => {}
+                }
+            }
+            if risky {
+                continue;
+            }
+        }
+        let c = Case { xml: XmlVar::FULL, stop_fail_kills: false, u3v: true, real: true, faults: vec![], ops: ops.clone(), kind: 0 };
+        if std::env::var("C16_TRACE").is_ok() {
+            eprintln!("real: {}", c.request());
+        }
+        cx.one(&c, "real-u3v-StreamHandle");
+    }
+    progress.store(u64::MAX, Ordering::SeqCst);
 
     // (5d) large capacities: the channel must really have `cap` slots (a clamp would show), and
     //      the give-back capacity stays 5
@@ -1398,7 +1818,7 @@ fn main() {
         vec![Op::Open, Op::Load, Op::Start(1 << 16), Op::Start(BIG_CAP), Op::Stop],
         vec![Op::Open, Op::Load, Op::Start(1025), Op::Close],
     ] {
-        let c = Case { xml: XmlVar::FULL, stop_fail_kills: false, faults: vec![], ops: ops.clone(), kind: 0 };
+        let c = Case { xml: XmlVar::FULL, stop_fail_kills: false, u3v: false, real: false, faults: vec![], ops: ops.clone(), kind: 0 };
         cx.one(&c, "large-cap");
         if !ops.contains(&Op::Start(BIG_CAP)) {
             cx.with_faults(&c, false, "large-cap");
@@ -1411,7 +1831,7 @@ fn main() {
     sequences(&base5, d7, &mut |s| seqs7.push(s.to_vec()));
     for kind in 1..6u8 {
         for s in &seqs7 {
-            let c = Case { xml: XmlVar::FULL, stop_fail_kills: kind % 2 == 0, faults: vec![], ops: s.clone(), kind };
+            let c = Case { xml: XmlVar::FULL, stop_fail_kills: kind % 2 == 0, u3v: false, real: false, faults: vec![], ops: s.clone(), kind };
             cx.with_faults(&c, false, "exhaustive-error-kinds");
         }
     }
@@ -1429,9 +1849,10 @@ fn main() {
                 9 => Op::Start(0),
                 10..=11 => Op::Stop,
                 12..=13 => Op::Close,
-                14 => match rng.below(4) {
+                14 => match rng.below(5) {
                     0 => Op::Preload,
                     1 => Op::Unload,
+                    2 => Op::Die,
                     _ => Op::Gate(rng.below(3) as u32),
                 },
                 _ => Op::Param,
@@ -1443,7 +1864,7 @@ fn main() {
         faults.dedup();
         let mut xml = if rng.chance(1, 6) { *rng.pick(&vars) } else { XmlVar::FULL };
         xml.gate = *rng.pick(&[GateVar::None, GateVar::None, GateVar::IsLocked, GateVar::IsAvailable, GateVar::ImposedRo]);
-        let c = Case { xml, stop_fail_kills: rng.bool(), faults, ops, kind: rng.below(6) as u8 };
+        let c = Case { xml, stop_fail_kills: rng.bool(), u3v: rng.chance(1, 3), real: false, faults, ops, kind: rng.below(6) as u8 };
         cx.one(&c, "random-deep");
     }
 
